@@ -150,16 +150,35 @@ type evLine struct {
 }
 
 type evDriver struct {
-	c    *core.Ctx
-	cl   *s3c.Client
-	b    string
-	n    int
-	reqs []evReq
+	c       *core.Ctx
+	cl      *s3c.Client
+	b       string
+	n       int
+	vbReady bool
+	shape   int // key shape of the next key(): 0 plain, 1 nested, 2 characters that need encoding, 3 directory object
+	reqs    []evReq
 }
 
-func (d *evDriver) key() string { d.n++; return fmt.Sprintf("obj-%05d", d.n) }
+func (d *evDriver) key() string {
+	d.n++
+	switch d.shape {
+	case 1:
+		return fmt.Sprintf("pre-%05d/sub dir/obj", d.n)
+	case 2:
+		return fmt.Sprintf("obj %05d+é&=%%41;x", d.n)
+	case 3:
+		return fmt.Sprintf("dobj-%05d/", d.n)
+	}
+	return fmt.Sprintf("obj-%05d", d.n)
+}
 
-func (d *evDriver) body(k string, size int) []byte { return Content("ev-"+k, size) }
+// a directory object holds no data
+func (d *evDriver) body(k string, size int) []byte {
+	if strings.HasSuffix(k, "/") {
+		size = 0
+	}
+	return Content("ev-"+k, size)
+}
 
 func (d *evDriver) put(ok bool, size int) {
 	k := d.key()
@@ -168,11 +187,16 @@ func (d *evDriver) put(ok bool, size int) {
 		b = "no-such-bucket-ev"
 	}
 	body := d.body(k, size)
+	size = len(body)
 	r := PutObject(d.cl, b, k, body)
 	d.reqs = append(d.reqs, evReq{Op: "put", B: b, OK: r.OK(), Keys: []evKey{{K: k, OK: r.OK(), Size: int64(size), Etag: s3c.MD5Hex(body), Vid: "-"}}, Note: r.String()})
 }
 
 func (d *evDriver) copyObj(ok bool, size int) {
+	if d.shape == 3 {
+		d.shape = 1 // (data cannot be copied onto a directory object)
+		defer func() { d.shape = 3 }()
+	}
 	src := d.key()
 	if ok {
 		d.putQuiet(src, size)
@@ -185,11 +209,16 @@ func (d *evDriver) copyObj(ok bool, size int) {
 // putQuiet stores an object whose own notification is accounted for as well.
 func (d *evDriver) putQuiet(k string, size int) {
 	body := d.body(k, size)
+	size = len(body)
 	r := PutObject(d.cl, d.b, k, body)
 	d.reqs = append(d.reqs, evReq{Op: "put", B: d.b, OK: r.OK(), Keys: []evKey{{K: k, OK: r.OK(), Size: int64(size), Etag: s3c.MD5Hex(body), Vid: "-"}}, Note: r.String()})
 }
 
 func (d *evDriver) complete(ok bool, size int) {
+	if d.shape == 3 {
+		d.shape = 1
+		defer func() { d.shape = 3 }()
+	}
 	k := d.key()
 	uid, r0 := CreateMPU(d.cl, d.b, k)
 	if !r0.OK() {
@@ -258,15 +287,76 @@ func (d *evDriver) batchDelete(withFailure bool) {
 	d.reqs = append(d.reqs, req)
 }
 
+// batchDeleteVersions: in the versioned bucket evv, k1 has two versions and k2 one; one
+// DeleteObjects request names k1's older version and a version of k2 that does not exist.
+func (d *evDriver) batchDeleteVersions() {
+	const vb = "evv"
+	if d.n == 0 || !d.vbReady {
+		if r := CreateBucket(d.cl, vb); !r.OK() && r.Code != "BucketAlreadyOwnedByYou" {
+			d.c.Logf("versioned event bucket: %v", r)
+			return
+		}
+		if r := PutVersioning(d.cl, vb, "Enabled"); !r.OK() {
+			d.c.Logf("versioned event bucket: %v", r)
+			return
+		}
+		d.vbReady = true
+	}
+	k1, k2 := d.key(), d.key()
+	var v1 string
+	for _, k := range []string{k1, k2} {
+		body := d.body(k, 10+len(k))
+		r := PutObject(d.cl, vb, k, body)
+		if k == k1 {
+			v1 = r.Header.Get("X-Amz-Version-Id")
+		}
+		d.reqs = append(d.reqs, evReq{Op: "put", B: vb, OK: r.OK(), Keys: []evKey{{K: k, OK: r.OK(), Size: int64(len(body)), Etag: s3c.MD5Hex(body), Vid: "-"}}, Note: r.String()})
+	}
+	// the second version of k1 is made by a copy (requests are told apart by operation and key)
+	{
+		r := CopyObject(d.cl, vb, k2, vb, k1)
+		src := d.body(k2, 10+len(k2))
+		d.reqs = append(d.reqs, evReq{Op: "copy", B: vb, OK: r.OK(), Keys: []evKey{{K: k1, OK: r.OK(), Size: int64(len(src)), Etag: s3c.MD5Hex(src), Vid: "-"}}, Note: r.String()})
+	}
+	if v1 == "" {
+		d.c.Logf("versioned event bucket: no version id returned")
+		return
+	}
+	bogus := "01ZZZZZZZZZZZZZZZZZZZZZZZZ"
+	body := []byte(`<Delete xmlns="http://s3.amazonaws.com/doc/2006-03-01/"><Object><Key>` + xmlEsc(k1) + `</Key><VersionId>` + v1 + `</VersionId></Object><Object><Key>` + xmlEsc(k2) + `</Key><VersionId>` + bogus + `</VersionId></Object></Delete>`)
+	r := d.cl.Do(s3c.Req{Method: "POST", Path: "/" + vb, Query: []s3c.KV{{K: "delete"}}, Body: body, Headers: []s3c.KV{{K: "Content-MD5", V: s3c.MD5B64(body)}}})
+	req := evReq{Op: "deleteobjects", B: vb, OK: r.OK(), Note: r.String()}
+	deleted := map[string]bool{}
+	if r.OK() {
+		var dr delResult
+		xmlUnmarshal(r.Body, &dr)
+		for _, x := range dr.Deleted {
+			deleted[x.Key] = true
+		}
+	}
+	// the entry naming a version that does not exist did not delete anything, whatever the
+	// reply says about it: k2 must still be there
+	if h := HeadObject(d.cl, vb, k2); h.OK() {
+		if deleted[k2] {
+			req.Note += " (k2 reported deleted but still there)"
+		}
+		deleted[k2] = false
+	}
+	for _, k := range []string{k1, k2} {
+		req.Keys = append(req.Keys, evKey{K: k, OK: deleted[k], Size: -1, Etag: "-", Vid: "-"})
+	}
+	d.reqs = append(d.reqs, req)
+}
+
 func (d *evDriver) tagging(ok bool) {
 	k := d.key()
 	if ok {
 		d.putQuiet(k, 7)
 	}
 	body := []byte(`<Tagging><TagSet><Tag><Key>a</Key><Value>b</Value></Tag></TagSet></Tagging>`)
-	r := d.cl.Do(s3c.Req{Method: "PUT", Path: "/" + d.b + "/" + k, Query: []s3c.KV{{K: "tagging"}}, Body: body})
+	r := d.cl.Do(s3c.Req{Method: "PUT", Path: "/" + d.b + "/" + s3c.EncPath(k), Query: []s3c.KV{{K: "tagging"}}, Body: body})
 	d.reqs = append(d.reqs, evReq{Op: "puttagging", B: d.b, OK: r.OK(), Keys: []evKey{{K: k, OK: r.OK(), Size: -1, Etag: "-", Vid: "-"}}, Note: r.String()})
-	r2 := d.cl.Do(s3c.Req{Method: "DELETE", Path: "/" + d.b + "/" + k, Query: []s3c.KV{{K: "tagging"}}})
+	r2 := d.cl.Do(s3c.Req{Method: "DELETE", Path: "/" + d.b + "/" + s3c.EncPath(k), Query: []s3c.KV{{K: "tagging"}}})
 	ok2 := r2.Err == nil && r2.Status < 300
 	d.reqs = append(d.reqs, evReq{Op: "deltagging", B: d.b, OK: ok2, Keys: []evKey{{K: k, OK: ok2, Size: -1, Etag: "-", Vid: "-"}}, Note: r2.String()})
 }
@@ -312,7 +402,7 @@ func attribute(reqs []evReq, evs []evDelivered, filter map[string]any) ([]evLine
 }
 
 func C19(c *core.Ctx, replay string) {
-	c.Rule = "Programs of succeeding and failing object-changing requests (put, copy, multipart completion, delete, batch delete with a per-key failure, put/delete tagging) run against a real gateway whose real webhook sender posts to the harness's collector, sequentially, with 16 concurrent clients, under several event-filter files, and in a gated schedule in which a notification is held before serialisation while the next request reuses the request context. Each request's outcome with the notifications attributed to it (by key) is one trace line validated by TLC against EventPipe's rule (exactly one right event per affected key, none for failures, filter applied). TLC also model-checks the pipeline model (record built from the pooled context, serialised later). Non-trivial: a request that failed, a batch, or a request under a filter."
+	c.Rule = "Programs of succeeding and failing object-changing requests (put, copy, multipart completion, delete, batch delete with a per-key failure, put/delete tagging; keys plain, nested, with characters that need encoding, and directory objects; in a versioned bucket a batch delete by version id with an entry naming a version that does not exist) run against a real gateway whose real webhook sender posts to the harness's collector, sequentially, with 16 concurrent clients, under several event-filter files, and in a gated schedule in which a notification is held before serialisation while the next request reuses the request context. Each request's outcome with the notifications attributed to it (by key) is one trace line validated by TLC against EventPipe's rule (exactly one right event per affected key, none for failures, filter applied). TLC also model-checks the pipeline model (record built from the pooled context, serialised later). Non-trivial: a request that failed, a batch, or a request under a filter."
 	c.Assumptions = []string{"events are attributed to requests by object key (keys are unique per request)", "quiescence = no notification for 400 ms"}
 	for _, sw := range []string{"TRUE", "FALSE"} {
 		res, err := tlc.Run(c.Scratch, tlc.Opts{Module: "EventPipe", Workers: 1,
@@ -355,7 +445,7 @@ func C19(c *core.Ctx, replay string) {
 			c.Inconclusive("controller: %v", err)
 			return
 		}
-		env := MustEnv(c, false, false, func(g *gw.Config) {
+		env := MustEnv(c, true, false, func(g *gw.Config) {
 			g.WebhookURL = co.URL()
 			g.GateSock = ctl.Sock
 			if _, all := filter["all"]; !all {
@@ -378,6 +468,15 @@ func C19(c *core.Ctx, replay string) {
 		sizes := []int{0, 1, 100, 5000, 70000}
 		for r := 0; r < rounds; r++ {
 			sz := sizes[c.Rng.Intn(len(sizes))]
+			// the key shape of the round; every round also handles a directory object
+			// (put, tag, untag, delete) and a key that needs encoding
+			for _, sh := range []int{3, 2} {
+				d.shape = sh
+				d.put(true, sz)
+				d.tagging(true)
+				d.del(sz)
+			}
+			d.shape = (r + fi) % 4
 			d.put(true, sz)
 			d.put(false, sz)
 			d.copyObj(true, sz)
@@ -389,6 +488,10 @@ func C19(c *core.Ctx, replay string) {
 			d.tagging(true)
 			d.tagging(false)
 		}
+		// (1b) a versioned bucket: batch delete by version id, one entry naming a version
+		// that does not exist (a per-key error: that key's object is untouched)
+		d.shape = 0
+		d.batchDeleteVersions()
 		// (2) concurrent clients on distinct keys
 		if fi == 0 {
 			var wg sync.WaitGroup
